@@ -298,7 +298,13 @@ pub fn parts(tier: Tier) -> (Vec<Part<Case>>, String) {
     let seed = crate::engine::verif_seed();
     const OFF_SIZES: [usize; 3] = [3, 8, 32];
     let n_on = SIZES.len() * 4;
-    let total = (n_on + OFF_SIZES.len() * 2) as u64;
+    let n_off = OFF_SIZES.len() * 2;
+    // every batch size 2..=64 once more (Env, generator freshly seeded per step): a bias that exists for one
+    // particular size only must not fall between the sizes of the main grid
+    let all_sizes: Vec<usize> = (2..=64usize).rev().collect();
+    let n_all = all_sizes.len();
+    let steps_all = (steps / 2).max(200_000);
+    let total = (n_on + n_off + n_all) as u64;
     let uniform = Part {
         name: "uniformity-campaigns".to_string(),
         kind: PartKind::Exhaustive {
@@ -311,12 +317,15 @@ pub fn parts(tier: Tier) -> (Vec<Part<Case>>, String) {
                     let market = k % 2 == 1;
                     let stream = (k / 2) % 2 == 1;
                     Some(Case::Shuffle(ShuffleCase::Uniform { n, market, stream, steps, seed, alpha_exp: 9, cases_in_run: total as u32, trading: true }))
-                } else {
+                } else if k < n_on + n_off {
                     let j = k - n_on;
                     Some(Case::Shuffle(ShuffleCase::Uniform { n: OFF_SIZES[j / 2], market: j % 2 == 1, stream: false, steps, seed, alpha_exp: 9, cases_in_run: total as u32, trading: false }))
+                } else {
+                    let j = k - n_on - n_off;
+                    Some(Case::Shuffle(ShuffleCase::Uniform { n: all_sizes[j], market: false, stream: false, steps: steps_all, seed: seed ^ 0xA11, alpha_exp: 9, cases_in_run: total as u32, trading: true }))
                 }
             }),
-            description: format!("one campaign of {} seeded steps for each batch size in {:?} x environment in {{Env, MarketEnv<2>}} x generator in {{freshly seeded per step, one continuing stream}} with trading enabled, plus batch sizes {:?} x both environments during a no-trading period", steps, SIZES, OFF_SIZES),
+            description: format!("one campaign of {} seeded steps for each batch size in {:?} x environment in {{Env, MarketEnv<2>}} x generator in {{freshly seeded per step, one continuing stream}} with trading enabled, plus batch sizes {:?} x both environments during a no-trading period, plus one campaign of {} steps for EVERY batch size 2..=64 (Env, fresh seed per step)", steps, SIZES, OFF_SIZES, steps_all),
         },
     };
     let det = Part {
